@@ -224,10 +224,23 @@ def run(chk, failed):
     if failed and not mism and not bad_oracle:
         chk.violation("obligation", {"kind": "theorem", "broken": [n for n, _ in failed],
                                      "detail": [d for _, d in failed]}, found_input=False)
+    # which of the property's observation points THIS check observes (audit A, item 4)
+    chk.notes.append("observe_at coverage: this check observes the StorageFetchConsumer reply (Offsets[].Lag, CurrentLag, BrokerOffsets) of "
+                     "the real handlers, sequentially. NOT observed here: (a) the stale-topic view (fetchConsumer while a topic is being "
+                     "deleted / re-created by another worker: the `continue` branch and the 54faa50 guards) - covered by C08 "
+                     "(conc_reply_consistent, conc_reply_broker_complete, scheduler probe); (b) the status views (evaluator "
+                     "TotalLag / CurrentLag in caching.go, GET /v3/kafka/{cluster}/consumer/{group}[/status|/lag]) - covered by PIPE "
+                     "(PIPE_e2e_lag_exact, end-to-end probe) with C03/C04 (evaluator) and C16/C17 (HTTP); a corrupting cast in "
+                     "evaluator/caching.go is theirs to catch, not C01's")
+    chk.count("observe_at:StorageFetchConsumer-reply(checked-here)", len(lines))
+    chk.count("observe_at:stale-topic-view(covered-by-C08)", 0)
+    chk.count("observe_at:status-views-evaluator-http(covered-by-PIPE,C03,C04,C17)", 0)
     chk.assumptions += [
         "requests are well formed (wf_hist): offsets are int64, a broker offset names a partition below the count it announces "
         "(what the cluster module sends); intervals >= 1",
-        "one request at a time (sequential semantics of one worker); interleavings are C08's",
+        "one request at a time (sequential semantics of one worker); interleavings (incl. the stale-topic view of fetchConsumer) are C08's",
+        "the evaluator / HTTP status views of the same numbers are PIPE's (PIPE_e2e_lag_exact) and C03/C04/C17's, not observed by this check",
+        "props/C01.v: current_lag_latest_in_log, stored_lag_exact_strong and commit_in_order_stored go through C02's window shape (RingProofs.v, StorageWindows.v)",
         "handlers are called directly (symbols pinned by the storage unit tests), time.Now() replaced by the virtual clock in the overlay copy",
         "last_broker ignores topic deletion: a commit can only be stored after a broker offset recorded after the deletion, so the last "
         "SetBrokerOffset of the history is the one in force (proved: broker_ok link in StorageProofs.hinv)",
